@@ -335,7 +335,7 @@ func propsGuarded(r *Run, info *types.Info, fd *ast.FuncDecl, call *ast.CallExpr
 		}
 		return []ast.Expr{e}
 	}
-	for _, l := range pathConditions(fd.Body, call) {
+	for _, l := range controlConds(fd.Body, call) {
 		if l.Neg {
 			if nilTest(l.Expr, token.EQL) {
 				return true
